@@ -11,9 +11,11 @@ VARIABLE l
 
 Proj(t) == [k |-> t.k, cat |-> t.cat, ch |-> t.ch, name |-> t.name, ln |-> t.ln, col |-> t.col]
 
+\* an event may give the end-line character line by line (it changed while the text was read)
+Want(e) == IF "elcs" \in DOMAIN e THEN LexV(e.lines, e.table, e.elcs) ELSE Lex(e.lines, e.table, e.elc)
 Judge(e) ==
   IF e.panic # "" THEN "panic"
-  ELSE LET want == Lex(e.lines, e.table, e.elc)
+  ELSE LET want == Want(e)
            got == [i \in 1..Len(e.toks) |-> Proj(e.toks[i])]
        IN IF got # want THEN
                (IF [i \in 1..Len(got) |-> [got[i] EXCEPT !.ln = 0, !.col = 0]] =
@@ -27,7 +29,7 @@ TStep == /\ l <= Len(Rec) /\ l' = l + 1
          /\ LET e == Rec[l] j == Judge(e) IN
             IF j = "ok" THEN TRUE
             ELSE PrintT(<<"VERDICT", ToJson([l |-> l, key |-> j,
-                     want |-> IF j = "panic" THEN <<>> ELSE Lex(e.lines, e.table, e.elc)])>>)
+                     want |-> IF j = "panic" THEN <<>> ELSE Want(e)])>>)
 TSpec == TInit /\ [][TStep]_l
 Matched == TLCGet("stats").diameter - 1
 TraceAccepted == \/ Matched = Len(Rec)
